@@ -27,6 +27,7 @@ EXPLANATION = (
 
 RULES = {
     "C12-V1": "error code -> ESR bit map (range table x comparison orientation, all 65536 codes) equals the SCPI-99 21.8 partition",
+    "C12-V1c": "an error code the library queues on its own (-350 on overflow) also sets the ESR bit of its class, on every path on which it was queued",
     "C12-V1b": "every insertion into the error queue passes through the classification loop; the class bit is applied with a set-bits (monotone) call on ESR",
     "C12-V2": "condition arm: value stored to the event register == old event | latched transitions (truth table)",
     "C12-V3": "only the operations defined to clear an event register can lower it; each does so on every path, queries report before clearing",
@@ -66,6 +67,79 @@ def _cmp(op, x, y):
     return {"<": x < y, "<=": x <= y, ">": x > y, ">=": x >= y, "==": x == y, "!=": x != y}[op]
 
 
+def rule_v1c(ck, prog, S):
+    """codes queued by the library itself: constant stored into an error value that is then added to the queue"""
+    spec = K.load_spec("esr_classes.json")
+    bits = spec["esr_bits"]
+    esr = prog.enumconst.get("SCPI_REG_ESR")
+    add = prog.fn("SCPI_ErrorAddInternal")
+    push = prog.fn("SCPI_ErrorPushEx")
+    if add is None or push is None or esr is None:
+        ck.anchor_lost("C12-V1c", "SCPI_ErrorAddInternal / SCPI_ErrorPushEx")
+        return
+    own = set()
+    for n, t in C.stores(add):
+        if (t.get("path") or "").endswith("error_code") and n.get("op") == "=":
+            c = C.const_of(n.child(1))
+            if c is not None and c != 0:
+                own.add(c)
+    if not own:
+        ck.anchor_lost("C12-V1c", "no constant error code is queued by SCPI_ErrorAddInternal (expected the overflow marker)")
+        return
+    pg = S.pg(push)
+    calls = list(push.calls("SCPI_ErrorAddInternal"))
+    if len(calls) != 1:
+        ck.anchor_lost("C12-V1c", "call of SCPI_ErrorAddInternal in SCPI_ErrorPushEx")
+        return
+    # edges on which the insertion is known to have failed (the own code was queued instead)
+    holder = None
+    for n in push.nodes.values():
+        if n.k == "DeclStmt":
+            for d in n.get("decls", []):
+                if "init" in d and any(x is calls[0] for x in push.nodes[d["init"]].walk()):
+                    e_ = push.nodes[d["init"]].strip_all_casts()
+                    neg = e_.k == "UnaryOperator" and e_.get("op") == "!"
+                    holder = (d["name"], neg)
+    for n, t in C.stores(push):
+        if n.get("op") == "=" and any(x is calls[0] for x in n.child(1).walk()):
+            e_ = n.child(1).strip_all_casts()
+            holder = (t.get("path"), e_.k == "UnaryOperator" and e_.get("op") == "!")
+    fail_edges = []
+    for p_, es in pg.out.items():
+        for e in es:
+            if e.kind == "edge" and e.label and len(e.label) > 1 and e.label[0] in ("true", "false") and e.label[1] is not None:
+                for a, pol in C.cond_facts(e.label[1], e.label[0] == "true"):
+                    if isinstance(pol, tuple):
+                        continue
+                    s_ = a.strip_all_casts()
+                    if s_ is calls[0] and pol is False:
+                        fail_edges.append(e)
+                    elif holder and s_.get("path") == holder[0] and pol is (True if holder[1] else False):
+                        fail_edges.append(e)
+    for code in sorted(own):
+        want = 0
+        for c in spec["classes"]:
+            if c["lo"] <= code <= c["hi"]:
+                want |= bits[c["bit"]]
+        st = K.site(push, "own-code(%d)" % code, 0)
+        setters = [c for c in push.calls("SCPI_RegSetBits")
+                   if C.const_of(K.arg(c, 1)) == esr and C.const_of(K.arg(c, 2)) is not None and (C.const_of(K.arg(c, 2)) & want) == want]
+        if not fail_edges:
+            ck.undecided("C12-V1c", st, K.loc(push, calls[0]), "cannot locate the path on which the insertion failed")
+            continue
+        if want == 0:
+            ck.holds("C12-V1c", st, K.loc(push), "code %d has no ESR class" % code, nontrivial=False)
+            continue
+        reach = pg.reachable([e.dst for e in fail_edges], blocked_edge=lambda e: e.kind == "elem" and e.node in setters)
+        if pg.exit in reach:
+            ck.violated("C12-V1c", st, K.loc(push, calls[0]),
+                        "when the queue is full the library queues %d in place of the newest entry, but no path sets the ESR bit of that "
+                        "code's class (0x%02x): after three pushes of -113 on a queue of two, -350 is in the queue and ESR is 0x20" % (code, want))
+        else:
+            ck.holds("C12-V1c", st, K.loc(push, setters[0]), "ESR |= 0x%02x on every path on which %d was queued" % (want, code))
+    ck.analysed(add, push)
+
+
 def rule_v1(ck, prog, S):
     got = K.need(ck, prog, "C12-V1", "SCPI_ErrorPushEx")
     if not got:
@@ -100,6 +174,30 @@ def rule_v1(ck, prog, S):
         ck.holds("C12-V1b", st, K.loc(fn, call), "class bit applied with SCPI_RegSetBits")
         bitarg = C.call_args(call)[2].strip_all_casts()
         p = bitarg.get("path") or ""
+        if C.const_of(bitarg) is not None and "[" not in p:
+            # a constant class bit is legitimate only for a code the library queues itself (the overflow marker): the call must
+            # sit on the insertion-failed path and carry the bit of that code's class (V1c demands that it is there)
+            cb = C.const_of(bitarg)
+            own_bits = set()
+            addf = prog.fn("SCPI_ErrorAddInternal")
+            if addf is not None:
+                for n2, t2 in C.stores(addf):
+                    if (t2.get("path") or "").endswith("error_code") and n2.get("op") == "=" and C.const_of(n2.child(1)):
+                        for c_ in spec["classes"]:
+                            if c_["lo"] <= C.const_of(n2.child(1)) <= c_["hi"]:
+                                own_bits.add(spec["esr_bits"][c_["bit"]])
+            facts_ = K.facts_at(S, fn, call) or []
+            on_fail = any(not isinstance(pol, tuple) and ((a.strip_all_casts().k == "DeclRefExpr" and "overflow" in (a.get("path") or "") and pol is True) or
+                                                          (a.strip_all_casts().k == "CallExpr" and a.get("callee") == "SCPI_ErrorAddInternal" and pol is False))
+                          for a, pol in facts_)
+            if cb in own_bits and on_fail:
+                ck.holds("C12-V1", st, K.loc(fn, call), "constant class bit 0x%02x on the insertion-failed path (the library's own -350, see C12-V1c)" % cb)
+            else:
+                ck.violated("C12-V1", st, K.loc(fn, call),
+                            "ESR bit 0x%02x is set regardless of the code's class (not on the overflow path / not the class of a code the "
+                            "library queues itself): errors of other classes raise a foreign standard-event bit" % cb)
+                ok = False
+            continue
         if "[" not in p or "]." not in p:
             ck.undecided("C12-V1", st, K.loc(fn, call), "bit argument `%s` is not table[idx].field" % bitarg.src)
             ok = False
@@ -627,6 +725,7 @@ def run(ck, fb, tier):
         prog = fb[cfg]
         S = K.summaries(prog)
         rule_v1(ck, prog, S)
+        rule_v1c(ck, prog, S)
         rule_v1b(ck, prog, S)
         got = K.need(ck, prog, "C12-V2", "SCPI_RegSet")
         if got:
